@@ -1664,6 +1664,19 @@ fn probes() {
         c.mutate_ops(0, 3, (), |_, _, p, t| (if p == 1 { Some(None) } else { None }, t));
         probe_check(&mut c, 2, log);
     });
+    // f. (found while writing the generator) fill_args_at_p_with_hint at p > array length: its last
+    //    statement scans get_node_ref(0..p) before mutate_subsection grows the array
+    run_probe("hint_fill_beyond_len", |log| {
+        let mut c = FastOps::new_from_nvars(1);
+        c.set_cutoff(2);
+        ins_at(&mut c, 0, Some(raw_op(vec![0], 0)));
+        probe_check(&mut c, 1, log);
+        let vars = [0usize];
+        let mut a = c.get_empty_args(SubvarAccess::Varlist(&vars));
+        c.fill_args_at_p_with_hint(4, &mut a, &vars, vec![None]);
+        c.mutate_subsection(4, 6, (), |_, _, t| (None, t), Some(a));
+        probe_check(&mut c, 2, log);
+    });
     // e. mutate_ps starting at the array length
     run_probe("ps_start_at_len", |log| {
         let mut c = FastOps::new_from_nvars(1);
